@@ -3,7 +3,7 @@
    of Gen.FixedKernels are regenerated from /repo/droop/values/fixed.py on every run. *)
 From Coq Require Import ZArith QArith Qround Qabs List Bool String.
 From Droop Require Import Model.KernelBase Model.Arith Gen.FixedKernels Gen.RationalWrapped
-  Proofs.ArithLemmas Proofs.C12Proofs.
+  Proofs.ArithLemmas Proofs.C12Proofs Proofs.C12Bracket.
 Import ListNotations.
 Open Scope Z_scope.
 
@@ -117,6 +117,36 @@ Theorem C12_rational_closed :
   forallb (fun n => existsb (String.eqb n) rational_wrapped) rational_operators = true.
 Proof. exact c12_rational_closed. Qed.
 Print Assumptions C12_rational_closed.
+
+(* what the two rounding shapes mean for the exact values, without reference to Qfloor:
+   down = the greatest value of the class not above the exact result (so the count never credits more than exists),
+   up   = the least value of the class not below it; either way the error is below one unit of the last place *)
+Theorem C12_round_down_is_greatest_below : forall st p, fixed_state_ok st p -> forall x res,
+  rounded st RDown x res ->
+  let S := f_scale st in
+  (valQ S res <= x)%Q /\ (x < valQ S (res + 1))%Q /\ (forall n, (valQ S n <= x)%Q -> n <= res).
+Proof. exact c12_down_greatest. Qed.
+Print Assumptions C12_round_down_is_greatest_below.
+
+Theorem C12_round_up_is_least_above : forall st p, fixed_state_ok st p -> forall x res,
+  rounded st RUp x res ->
+  let S := f_scale st in
+  (x <= valQ S res)%Q /\ (valQ S (res - 1) < x)%Q /\ (forall n, (x <= valQ S n)%Q -> res <= n).
+Proof. exact c12_up_least. Qed.
+Print Assumptions C12_round_up_is_least_above.
+
+Theorem C12_rounding_error_below_one_unit : forall st p, fixed_state_ok st p -> forall r x res,
+  r = RUp \/ r = RDown -> rounded st r x res ->
+  (Qabs (valQ (f_scale st) res - x) < valQ (f_scale st) 1)%Q.
+Proof. exact c12_error_below_unit. Qed.
+Print Assumptions C12_rounding_error_below_one_unit.
+
+(* operand-order symmetry of the product and of the fused multiply-divide *)
+Theorem C12_operand_order : forall st p, fixed_state_ok st p -> forall a b c r, r = RUp \/ r = RDown ->
+  mul st (OVal a) (OVal b) r = mul st (OVal b) (OVal a) r /\
+  (c <> 0 -> muldiv st (OVal a) (OVal b) (OVal c) r = muldiv st (OVal b) (OVal a) (OVal c) r).
+Proof. exact c12_operand_order. Qed.
+Print Assumptions C12_operand_order.
 
 (* non-vacuity: the state initialize() builds meets the hypothesis, and a concrete instance *)
 Example C12_hyp_met : fixed_state_ok (mk_fixed_cls 4 4) 4 /\ fixed_state_ok (mk_fixed_cls 0 0) 0.
